@@ -29,10 +29,10 @@ type Case struct {
 func gen(t *rapid.T) Case {
 	c := Case{Cfg: kit.TCfg{
 		Addrs:     rapid.IntRange(1, 3).Draw(t, "addrs"),
-		Max:       rapid.SampledFrom([]int{0, 1, 1, 2, 3}).Draw(t, "max"),
-		MaxIdle:   rapid.SampledFrom([]int{0, 1, 2, 3}).Draw(t, "max_idle"),
+		Max:       rapid.SampledFrom([]int{0, 1, 2, 3, 4}).Draw(t, "max"),
+		MaxIdle:   rapid.SampledFrom([]int{0, 1, 2, 3, 4}).Draw(t, "max_idle"),
 		KeepAlive: rapid.SampledFrom([]int{1, 1, 2, 5, 10}).Draw(t, "keep_alive"),
-		IdleTO:    rapid.SampledFrom([]int{1, 1, 2, 5, 20}).Draw(t, "idle_to"),
+		IdleTO:    rapid.SampledFrom([]int{1, 1, 2, 5, 20, 40}).Draw(t, "idle_to"),
 		TickUS:    2000,
 		Enc:       rapid.SampledFrom(kit.Encoders).Draw(t, "enc"),
 	}}
@@ -285,10 +285,24 @@ func run(c Case) kit.Outcome {
 		time.Sleep(time.Millisecond)
 	}
 	h("all connections reclaimed after idleness")
-	// Transport.Close closes every pooled connection and stops housekeeping
+	// Transport.Close closes every pooled connection and stops housekeeping: pooled connections
+	// are (re)created first - as many per address as the limits allow - and, when IdleConnTimeout
+	// leaves room for it, left unused until housekeeping has retired them to the idle set
 	for i := range w.Addrs {
-		w.Do(i, "call", kit.DirEcho, bound)
+		for k := 0; k < c.Cfg.EffMax(); k++ {
+			w.Do(i, "call", kit.DirEcho, bound)
+		}
 	}
+	pooledBeforeClose := 0
+	for _, a := range w.Addrs {
+		pooledBeforeClose += w.Net.OpenClient(a)
+	}
+	idleAtClose := false
+	if c.Cfg.IdleTO >= c.Cfg.KeepAlive+6 {
+		time.Sleep(time.Duration(c.Cfg.KeepAlive+3) * tick)
+		idleAtClose = true
+	}
+	h("%d pooled connections before Transport.Close (retired to idle: %v)", pooledBeforeClose, idleAtClose)
 	if err := w.Tr.Close(); err != nil {
 		return fail(kit.Fail("close-error", "Transport.Close returned %v", err))
 	}
@@ -327,6 +341,9 @@ func run(c Case) kit.Outcome {
 	}
 	if busyTicks > c.Cfg.KeepAlive {
 		out.Classes = append(out.Classes, "busy-longer-than-keepalive")
+	}
+	if idleAtClose && pooledBeforeClose >= 2 {
+		out.Classes = append(out.Classes, "close-with-several-idle-connections")
 	}
 	return out
 }
